@@ -35,7 +35,13 @@ REQUIRED = {"quick": ["schedule.systematic", "schedule.random", "schedule.pct", 
 WATCHDOG_S = {"quick": 900, "thorough": 3400}
 SHARD_BUDGET_S = {"quick": 40, "thorough": 600}
 
-OPS = ("mul", "rmul", "add", "eq", "x", "y", "to_affine", "scale", "double", "neg", "mul_add", "pickle", "verify", "precompute", "precompute_lazy", "sign", "to_string", "mulS", "addGS")
+OPS = ("mul", "rmul", "add", "eq", "x", "y", "to_affine", "scale", "double", "neg", "mul_add", "pickle", "verify", "precompute", "precompute_lazy", "sign", "to_string", "mulS", "addGS",
+       "pickleS", "to_affineG", "scaleG", "xS", "yG", "pickle_vk")
+
+
+DIRECTED = [("pickle", "to_affineG"), ("pickle", "scaleG"), ("pickleS", "to_affine"), ("pickleS", "scale"), ("pickle", "mul"), ("pickle", "mul_add"),
+            ("pickle_vk", "precompute"), ("pickle_vk", "verify"), ("to_affineG", "x"), ("scaleG", "yG"), ("to_affine", "y"), ("scale", "xS"),
+            ("mul", "rmul"), ("precompute_lazy", "verify"), ("eq", "scaleG"), ("addGS", "to_affine"), ("to_affineG", "to_affineG"), ("scale", "scale")]
 
 
 def monitored_codes():
@@ -43,6 +49,8 @@ def monitored_codes():
     codes += S.codes_of(K.VerifyingKey, {"precompute", "verify", "verify_digest", "to_string", "_raw_encode", "_compressed_encode"})
     codes += S.codes_of(E.Public_key, {"verifies"})
     codes += S.codes_of(E.Private_key, {"sign"})
+    from ecdsa import numbertheory as NT
+    codes += S.codes_of(NT, {"inverse_mod", "square_root_mod_prime", "jacobi"})       # helpers the point class calls: module-level state there is shared too
     return codes
 
 
@@ -135,6 +143,17 @@ class Scenario(object):
             return self.Qk
         if op == "sign":
             return self.sig
+        if op == "pickleS":
+            return (Sp, cv.mul(3, Sp))
+        if op in ("to_affineG", "scaleG"):
+            return G
+        if op == "xS":
+            return Sp[0]
+        if op == "yG":
+            return G[1]
+        if op == "pickle_vk":
+            L = self.dom.pbytes()
+            return self.Qk[0].to_bytes(L, "big") + self.Qk[1].to_bytes(L, "big")
         if op == "to_string":
             L = self.dom.pbytes()
             return self.Qk[0].to_bytes(L, "big") + self.Qk[1].to_bytes(L, "big")
@@ -181,6 +200,21 @@ def perform(sh, sc, op, arg, arg2):
     if op == "pickle":
         c = pickle.loads(pickle.dumps(G))
         return (aff(c), aff(c * 3))
+    if op == "pickleS":
+        c = pickle.loads(pickle.dumps(Sp))
+        return (aff(c), aff(c * 3))
+    if op == "to_affineG":
+        a = G.to_affine()
+        return (a.x(), a.y())
+    if op == "scaleG":
+        r = G.scale()
+        return (r.x(), r.y())
+    if op == "xS":
+        return Sp.x()
+    if op == "yG":
+        return G.y()
+    if op == "pickle_vk":
+        return pickle.loads(pickle.dumps(sh["vk"])).to_string()
     if op == "verify":
         return sh["vk"].verify(sc.sig, sc.msg, hashfunc=sc.hf)
     if op in ("precompute", "precompute_lazy"):
@@ -194,7 +228,8 @@ def perform(sh, sc, op, arg, arg2):
     raise ValueError(op)
 
 
-OPCLS = {"mul": "mul", "rmul": "mul", "mulS": "mul", "add": "add", "addGS": "add", "precompute_lazy": "precompute"}
+OPCLS = {"mul": "mul", "rmul": "mul", "mulS": "mul", "add": "add", "addGS": "add", "precompute_lazy": "precompute", "pickleS": "pickle", "pickle_vk": "pickle",
+         "to_affineG": "to_affine", "scaleG": "scale", "xS": "x", "yG": "y"}
 
 
 def one_run(ctx, sc, decider, hooks, cls, seen, check_every=1, snapshot_every=40):
@@ -314,6 +349,8 @@ def shards(tier, seed):
         out.append(("random_%d" % i, dict(kind="random", scenarios=10 if q else 60, per=12 if q else 60, instr=(i % 2 == 1))))
     for i in range(2 if q else 8):
         out.append(("pct_%d" % i, dict(kind="pct", scenarios=8 if q else 40, per=12 if q else 60)))
+    for i in range(2 if q else 12):
+        out.append(("every_instruction_%d" % i, dict(kind="random", scenarios=(18 if q else 72), per=4 if q else 20, instr="ALL", pswitch=(0.003, 0.01, 0.03), offset=i * 9)))
     out.append(("prod_random", dict(kind="prod", cname="SECP112r2", scenarios=2 if q else 12, per=4 if q else 20)))
     if not q:
         out.append(("prod_random_192", dict(kind="prod", cname="NIST192p", scenarios=4, per=10)))
@@ -333,7 +370,7 @@ def run(ctx, name, kind, **kw):
     if kind == "free":
         return free_running(ctx, rng, kw["rounds"])
     hooks = S.LineHooks()
-    hooks.install(monitored_codes(), SHARED_ATTRS if kw.get("instr") else None)
+    hooks.install(monitored_codes(), "ALL" if kw.get("instr") == "ALL" else (SHARED_ATTRS if kw.get("instr") else None))
     try:
         if kind == "systematic":
             for _ in range(kw["scenarios"]):
@@ -376,12 +413,17 @@ def run(ctx, name, kind, **kw):
                     if ctx.expired():
                         break
         elif kind in ("random", "pct"):
-            for _ in range(kw["scenarios"]):
+            for si in range(kw["scenarios"]):
                 curve, dom = toy_pick(rng)
                 sc = Scenario(rng, curve, dom, rng.choice((2, 3)))
+                if si % 2 == 0:
+                    # directed pairs: one thread copies / reads the object's state while another makes the FIRST use that rewrites or extends it
+                    a, b = DIRECTED[(si // 2 + kw.get("offset", 0)) % len(DIRECTED)]
+                    sc.plans[0] = [(a, sc.plans[0][0][1], sc.plans[0][0][2])]
+                    sc.plans[1] = [(b, sc.plans[1][0][1], sc.plans[1][0][2])]
                 for _j in range(kw["per"]):
                     if kind == "random":
-                        dec = S.random_decider(rng, rng.choice((0.01, 0.03, 0.1)))
+                        dec = S.random_decider(rng, rng.choice(kw.get("pswitch", (0.01, 0.03, 0.1))))
                     else:
                         dec = S.pct_decider(rng, len(sc.plans), rng.choice((2, 3, 4)), 400)
                     one_run(ctx, sc, dec, hooks, "schedule." + kind, seen)
